@@ -202,8 +202,8 @@ def generate(ctx):
     # ---- part A: operator table
     recsets = [(TABLE_POOL_SEED, ri) for ri in (0, 6)]
     if not ctx.quick:
-        recsets += [(TABLE_POOL_SEED, ri) for ri in (1, 2, 7, 8)]
-        recsets += [(subseed("c08", ctx.seed, "pool", j), ri) for j in range(2) for ri in (0, 3, 6, 7, 9)]
+        recsets += [(TABLE_POOL_SEED, ri) for ri in (1, 2, 3, 4, 5, 7, 8, 9)]
+        recsets += [(subseed("c08", ctx.seed, "pool", j), ri) for j in range(6) for ri in range(10)]
     idx = 0
     for pool_seed, ri in recsets:
         for op, pos, kind, src, container, cmp_src in table_rows():
@@ -237,7 +237,7 @@ def generate(ctx):
             idx += 1
     # ---- part B: heterogeneous streams
     templates = stream_templates()
-    nseeds = ctx.scale(1, 3)
+    nseeds = ctx.scale(1, 10)
     combos = [(via, fmt) for via in VIAS for fmt in FORMATS]
     for si in range(nseeds):
         sseed = subseed("c08", ctx.seed, "stream", si)
